@@ -44,7 +44,11 @@ def container_events(env, rng, thorough):
         unk2 = Scalar(GetUnknownQuantity("psi per dog"), 1.5)
         emp = Scalar.CreateEmptyScalar(3.0)
         empa = Array.CreateEmptyArray([1.0, 2.0])
-        objs = objs + [sq, aq, sq2, aq2, unk, unk2, emp, empa]
+        # a quantity holding two categories of one quantity type in different units (only obtainable from an ordered map)
+        from collections import OrderedDict
+        two = ObtainQuantity(OrderedDict([("length", ["m", 1]), ("diameter", ["cm", 1])]))
+        stwo, atwo = Scalar(two, 2.0), Array(two, [2.0, 3.0])
+        objs = objs + [sq, aq, sq2, aq2, unk, unk2, emp, empa, stwo, atwo]
         ops = [("s+s", lambda: s1 + s2), ("s*s", lambda: s1 * s2), ("s/s", lambda: s1 / s2), ("sq+sq", lambda: sq + sq2), ("sq-sq", lambda: sq2 - sq),
                ("a+a", lambda: a1 + a2), ("a-a", lambda: a1 - a2), ("a*a", lambda: a1 * a2), ("a/a", lambda: a1 / a2), ("aq+aq", lambda: aq + aq2),
                ("aq*aq", lambda: aq * aq2), ("aq2-aq", lambda: aq2 - aq), ("a*2", lambda: a1 * 2.0), ("2-a", lambda: 2.0 - a1),
@@ -53,8 +57,10 @@ def container_events(env, rng, thorough):
                ("s<s", lambda: s1 < s2), ("s==s", lambda: s1 == s2), ("a==a", lambda: a1 == a2), ("fs<fs", lambda: fs1 < fs2),
                ("fs.GetValue(u)", lambda: fs1.GetValue(fs2.GetUnit())), ("IsValid", lambda: [x.IsValid() for x in (s1, a1, f1, fs1)]),
                ("repr/str", lambda: [repr(x) + str(x) for x in objs]), ("a.CreateCopy(unit)", lambda: a1.CreateCopy(unit=a2.GetUnit())),
-               ("fs.CreateCopy(unit)", lambda: fs1.CreateCopy(unit=fs2.GetUnit())), ("f+f", lambda: f1 + f1), ("f*s", lambda: f1 * a2)]
-        name, fn = rng.choice(ops)
+               ("fs.CreateCopy(unit)", lambda: fs1.CreateCopy(unit=fs2.GetUnit())), ("f+f", lambda: f1 + f1), ("f*s", lambda: f1 * a2),
+               ("two+sq", lambda: stwo + Scalar(1.0, "m") * Scalar(3.0, "m")), ("two-sq", lambda: stwo - Scalar(1.0, "m", "length") * Scalar(3.0, "m", "diameter")),
+               ("atwo+aq", lambda: atwo + Array([1.0, 1.0], "m") * Array([3.0, 3.0], "m")), ("two*s", lambda: stwo * s1), ("two+two", lambda: stwo + stwo)]
+        name, fn = rng.choice(ops) if rng.random() < 0.8 else rng.choice(ops[-5:])
         pre = proj(objs, conts)
         P.outcome(fn)
         post = proj(objs, conts)
